@@ -1,9 +1,12 @@
 #!/bin/sh
-# usage: tools/run_all.sh [quick|thorough]  -- runs every registered check sequentially, prints one summary line each
-tier=${1:-quick}
+# usage: tools/run_all.sh [quick|thorough] [ids...] -- runs registered checks sequentially, prints one summary line each;
+# the complete output of every check is kept under $VERIF_LOGDIR (default /tmp/verif_logs) for diagnosis only
+tier=${1:-quick}; [ $# -gt 0 ] && shift
 cd "$(dirname "$0")/.." || exit 2
-for id in C01 C02 C03 C04 C05 C06 C07 C08 C09 C10 C11 C12 C13 C14 C15 C16 C17 C18 C19 C20; do
-  out=$(./check $id --tier $tier 2>&1); rc=$?
-  echo "$out" | grep -E "^VIOLATION|MACHINERY" | head -3
-  echo "$out" | tail -1
+logs=${VERIF_LOGDIR:-/tmp/verif_logs}; mkdir -p "$logs"
+ids=${*:-C01 C02 C03 C04 C05 C06 C07 C08 C09 C10 C11 C12 C13 C14 C15 C16 C17 C18 C19 C20}
+for id in $ids; do
+  ./check $id --tier $tier > "$logs/${id}_$tier.out" 2>&1; rc=$?
+  grep -E "^VIOLATION|MACHINERY|^Traceback|Error" "$logs/${id}_$tier.out" | head -5
+  tail -1 "$logs/${id}_$tier.out"
 done
